@@ -18,7 +18,7 @@ def schemas_for(tier):
     out += [("catalogue", s) for s, _ in cat[::step]]
     hs = headers.header_schemas()
     out += [("headers", s) for s, _ in (hs[::12] if tier == "quick" else hs)]
-    out += [("dims", s) for s, _ in headers.dim_schemas(with_ref_num=False)]
+    out += [("dims", s) for s, _ in headers.dim_schemas(with_ref_num=True)]
     return out
 
 
